@@ -174,7 +174,9 @@ class YamlDocument(HierDictDocument):
 
             ctx.in_document = yaml.load(s, **self.in_kwargs)
 
-        except (yaml.YAMLError, UnicodeError, LookupError) as e:
+        except (yaml.YAMLError, ValueError, LookupError) as e:
+            # (ValueError: not text in the charset, or e.g. an integer with
+            # more digits than the interpreter converts)
             raise Fault('Client.YamlDecodeError', repr(e))
 
     def create_out_string(self, ctx, out_string_encoding='utf8'):
@@ -189,7 +191,8 @@ class YamlDocument(HierDictDocument):
 
 
 def _unicode_loader(loader, node):
-    return node.value
+    # (a ConstructorError when the tag sits on a sequence or a mapping)
+    return loader.construct_scalar(node)
 
 
 def _decimal_to_bytes():
